@@ -19,12 +19,13 @@ int vf_caller_holds; /* ghost: the API precondition of unlock (caller is inside)
 #include "contracts/waitlist_thin.h"
 #include <rwlock.c>
 
-static ABTI_rwlock rw;
+static ABTI_rwlock rw; static int vf_kind;
 static void setup(void)
 {
     vf_rw = &rw;
     vf_mon_held = 0; vf_mon_waited = 0; vf_caller_holds = 0;
-    lp_ABTI_local = NULL; /* caller = external thread (tasklet test skipped) */
+    /* caller: an external thread, a ULT, or a tasklet (rdlock/wrlock refuse tasklets under the 1.x API) */
+    { static ABTI_xstream cxs; static ABTI_thread cth; int kind; VF_ASSUME(0 <= kind && kind <= 2); vf_kind = kind; cxs.p_thread = &cth; cth.type = (kind == 1) ? ABTI_THREAD_TYPE_YIELDABLE : 0; lp_ABTI_local = kind == 0 ? NULL : (ABTI_local *)&cxs; }
     VF_ASSUME(vf_mon_locks < 100 && vf_mon_unlocks < 100 && vf_mon_cwaits < 100 && vf_mon_bcasts < 100 && vf_mon_clock < 100);
 }
 
@@ -32,7 +33,9 @@ void h_rdlock(void)
 {
     setup();
     unsigned w0 = vf_mon_cwaits, l0 = vf_mon_locks, u0 = vf_mon_unlocks;
+    size_t rc0 = rw.reader_count; int wf0 = rw.write_flag;
     int r = ABT_rwlock_rdlock((ABT_rwlock)&rw);
+    if (vf_kind == 2) { VF_ASSERT(r == ABT_ERR_RWLOCK && vf_mon_held == 0 && vf_mon_locks == l0 && vf_mon_unlocks == u0 && rw.reader_count == rc0 && rw.write_flag == wf0, "a tasklet may not block on the lock: refused with nothing taken and nothing changed"); VF_REACH("rdlock refused"); return; }
     VF_ASSERT(vf_mon_held == 0 && vf_mon_locks == l0 + 1 && vf_mon_unlocks == u0 + 1 && vf_mon_mutex == &rw.mutex, "monitor mutex taken and released exactly once");
     /* readers shared: a reader is not blocked when no writer is inside */
     VF_ASSERT(vf_wf_at_lock == 0 ==> (r == ABT_SUCCESS && vf_mon_waited == 0), "no writer inside => the reader enters without waiting");
@@ -51,7 +54,9 @@ void h_wrlock(void)
 {
     setup();
     unsigned w0 = vf_mon_cwaits, l0 = vf_mon_locks, u0 = vf_mon_unlocks;
+    size_t rc0 = rw.reader_count; int wf0 = rw.write_flag;
     int r = ABT_rwlock_wrlock((ABT_rwlock)&rw);
+    if (vf_kind == 2) { VF_ASSERT(r == ABT_ERR_RWLOCK && vf_mon_held == 0 && vf_mon_locks == l0 && vf_mon_unlocks == u0 && rw.reader_count == rc0 && rw.write_flag == wf0, "a tasklet may not block on the lock: refused with nothing taken and nothing changed"); VF_REACH("wrlock refused"); return; }
     VF_ASSERT(vf_mon_held == 0 && vf_mon_locks == l0 + 1 && vf_mon_unlocks == u0 + 1, "monitor mutex taken and released exactly once");
     VF_ASSERT((vf_wf_at_lock == 0 && vf_rc_at_lock == 0) ==> (r == ABT_SUCCESS && vf_mon_waited == 0), "free lock => the writer enters without waiting");
     if (r == ABT_SUCCESS)
@@ -66,6 +71,7 @@ void h_unlock(void)
     setup();
     unsigned b0 = vf_mon_bcasts, l0 = vf_mon_locks, u0 = vf_mon_unlocks;
     vf_caller_holds = 1; /* precondition of the API: the caller is inside, as reader or writer */
+    VF_ASSUME(vf_kind != 2);
     int r = ABT_rwlock_unlock((ABT_rwlock)&rw);
     VF_ASSERT(r == ABT_SUCCESS && vf_mon_held == 0 && vf_mon_locks == l0 + 1 && vf_mon_unlocks == u0 + 1, "monitor mutex taken and released exactly once");
     VF_ASSERT(vf_wf_at_lock == 1 ? (rw.write_flag == 0 && rw.reader_count == 0) : (rw.write_flag == 0 && rw.reader_count == vf_rc_at_lock - 1), "writer leaves: flag cleared; reader leaves: count - 1");
